@@ -225,11 +225,13 @@ Lemma verify_header_ok_general : forall st h, verify_header st h = ROk ->
        In k pm /\ has_valid_sig (h_msg h) (h_sigs h) k = true).
 Proof.
   intros st h E. destruct (verify_header_ok_inv st h E) as [pm [Hp [Hn [Hc [Hi Hm]]]]].
-  exists pm. repeat split; try assumption.
+  exists pm. split; [exact Hp|]. split; [exact Hn|]. split.
   - unfold vh_count_lhs, vh_count_rhs in Hc. lia.
-  - apply Hi. assumption.
-  - apply verify_multi_ok_count in Hm. unfold vh_multisig_m in Hm. rewrite Nat2Z.id in Hm.
-    apply (filter_length_all _ _ Hm). assumption.
+  - intros k Hk. split; [apply Hi; exact Hk|].
+    apply verify_multi_ok_count in Hm. unfold vh_multisig_m in Hm.
+    assert (Hm' : (length (h_bookkeepers h)
+                   <= length (filter (has_valid_sig (h_msg h) (h_sigs h)) (h_bookkeepers h)))%nat) by lia.
+    apply (filter_length_all _ _ Hm'). exact Hk.
 Qed.
 
 (** The distinct bookkeepers all count as signing peers. *)
@@ -238,7 +240,7 @@ Lemma distinct_bookkeepers_sign : forall st h, verify_header st h = ROk ->
     (length (nodup N.eq_dec (h_bookkeepers h)) <= length (signing_peers pm h))%nat.
 Proof.
   intros st h E. destruct (verify_header_ok_general st h E) as [pm [Hp [Hn [_ Hk]]]].
-  exists pm. repeat split; try assumption.
+  exists pm. split; [exact Hp|]. split; [exact Hn|].
   apply NoDup_incl_length; [apply NoDup_nodup|].
   intros k Hin. apply nodup_In in Hin. destruct (Hk k Hin) as [H1 H2].
   unfold signing_peers. apply filter_In. split; assumption.
@@ -251,7 +253,7 @@ Lemma verify_header_partial : forall st h, NoDup (h_bookkeepers h) -> verify_hea
   exists pm, peer_set_for st h = Some pm /\ NoDup pm /\ two_thirds_signed pm h.
 Proof.
   intros st h Hd E. destruct (verify_header_ok_inv st h E) as [pm [Hp [Hn [Hc [Hi Hm]]]]].
-  exists pm. repeat split; try assumption.
+  exists pm. split; [exact Hp|]. split; [exact Hn|].
   apply verify_multi_ok_count in Hm.
   assert (Hl : (length (filter (has_valid_sig (h_msg h) (h_sigs h)) (h_bookkeepers h))
                 <= length (signing_peers pm h))%nat).
